@@ -179,6 +179,9 @@ def level(ctx):
                     if not (A.is_int(lvl) and lvl[1] == 0):
                         bad = bad or "first entry level is %s" % A.show(lvl)
                 else:
+                    # saturating arithmetic keeps the +-1 step (it only differs at the i16 bounds)
+                    if lvl[0] == "ret" and lvl[1] in ("saturating_add", "saturating_sub"):
+                        lvl = ("bin", "Add" if lvl[1].endswith("add") else "Sub", lvl[2][0], lvl[2][1], 16)
                     aff = U.affine_norm(lvl)
                     k = aff[1]
                     if k >= 1 << 15:
